@@ -7,15 +7,18 @@ Open Scope Z_scope.
 Definition tag (i : Z) : list Z := [-100 - i].
 
 (* ---------- decoders ---------- *)
+(* int32 fields of the API types: a number outside int32 cannot reach the webhook (JSON
+   decoding of the request fails), so such a token list is undecodable input *)
+Definition dI32 : dec Z := let* x := dZ in if (min32 <=? x) && (x <=? max32) then ret x else fail.
 Definition dPolicy : dec policy :=
-  let* a := dZ in let* e := dZ in let* es := dList dZ in let* x := dOpt dZ in let* t := dZ in
+  let* a := dZ in let* e := dZ in let* es := dList dZ in let* x := dOpt dI32 in let* t := dZ in
   ret (mkPolicy a e es x t).
 Definition dPart : dec part :=
-  let* a := dZ in let* b := dZ in let* c := dZ in let* d := dZ in ret (mkPart a b c d).
+  let* a := dI32 in let* b := dI32 in let* c := dI32 in let* d := dZ in ret (mkPart a b c d).
 Definition dTask : dec task :=
-  let* n := dZ in let* r := dZ in let* m := dOpt dZ in
+  let* n := dZ in let* r := dI32 in let* m := dOpt dI32 in
   let* tid := dZ in let* hn := dBool in let* dns := dZ in
-  let* ps := dList dPolicy in let* mr := dZ in
+  let* ps := dList dPolicy in let* mr := dI32 in
   let* dp := dOpt (dPair (dList dZ) dZ) in let* pp := dOpt dPart in
   ret (mkTask n r m (mkTmpl tid hn dns) ps mr dp pp).
 Definition dVol : dec volume :=
@@ -23,10 +26,11 @@ Definition dVol : dec volume :=
 Definition dPlugin : dec plugin :=
   let* a := dZ in let* b := dZ in let* c := dZ in ret (mkPlugin a b c).
 Definition dJob : dec job :=
-  let* n := dZ in let* ts := dList dTask in let* ma := dZ in let* ps := dList dPolicy in
+  let* n := dZ in let* ts := dList dTask in let* ma := dI32 in let* ps := dList dPolicy in
   let* vs := dList dVol in let* pl := dOpt (dList dPlugin) in
-  let* q := dZ in let* s := dZ in let* mr := dZ in let* pr := dZ in let* nt := dZ in let* rest := dZ in
-  ret (mkJob n ts ma ps vs pl q s mr pr nt rest).
+  let* q := dZ in let* s := dZ in let* mr := dI32 in let* pr := dZ in let* nt := dZ in let* rest := dZ in
+  let* tm := dBool in
+  ret (mkJob n ts ma ps vs pl q s mr pr nt rest tm).
 Definition dQueue : dec queue :=
   let* a := dZ in let* b := dZ in let* c := dZ in let* t := dBool in ret (mkQueue a b c t).
 
@@ -72,7 +76,7 @@ Definition eJob (j : job) : list Z :=
   tag 4 ++ eList ePolicy (j_policies j) ++
   tag 5 ++ eList eVol (j_volumes j) ++
   tag 6 ++ eOpt (fun l => eList ePlugin (sort_plugins l)) (j_plugins j) ++
-  tag 7 ++ [j_queue j; j_sched j; j_maxretry j; j_prio j; j_nt j; j_rest j].
+  tag 7 ++ [j_queue j; j_sched j; j_maxretry j; j_prio j; j_nt j; j_rest j] ++ eBool (j_term j).
 
 Definition entry (sel : Z) (toks : list Z) : list Z :=
   match sel with
